@@ -116,8 +116,25 @@ def ascii_stray_colon(g):
     return False
 
 
-def regions(framing, g, per_read, joined):
+BC_POS = {REQ: {15: 6, 16: 6, 20: 2, 21: 2, 23: 10}, RSP: {1: 2, 2: 2, 3: 2, 4: 2, 12: 2, 17: 2, 20: 2, 21: 2, 23: 2, 24: 3, 43: 7}}
+
+
+def incomplete_rtu_header(d, g):
+    """the garbage starts like an RTU frame whose length field has not arrived yet"""
+    if len(g) < 2:
+        return False
+    try:
+        return S.pdu_len(d, g[1:]) is None            # the frame's own length fields have not all arrived
+    except S.SpecError:
+        return False
+
+
+def regions(framing, g, per_read, joined, d=REQ, warm=0, first_read_tail=None):
     out = set()
+    if framing == 'rtu' and warm >= 1 and incomplete_rtu_header(d, g + (first_read_tail or b'')):
+        out.add('rtu-split-frame')
+    if framing == 'rtu' and d == RSP and len(g) >= 4 and g[1] == 0x18 and (g[2] << 16) + g[3] + 6 > BOUND['rtu']:
+        out.add('rtu-fifo-response-size-unbounded')
     if framing == 'ascii' and ascii_stray_colon(g):
         out.add('ascii-stray-colon')
     if framing == 'binary' and (b'{}' in g or g.endswith(b'{')):
@@ -155,6 +172,12 @@ def check(run, case):
         return None
     fr = new_framer(framing, d)
     got, excs = [], []
+    # a receiver that has already handled traffic is in a different internal state than a fresh one
+    for m, f in valid_frames(framing, d, case.get('warm', 0), random.Random(seed + 1), False):
+        try:
+            fr.processIncomingPacket(f, (lambda o: None), [UNIT], single=False)
+        except Exception:  # noqa
+            pass
     maxread = max(len(x) for x in reads)
     backlog_bad = None
     for ri, chunk in enumerate(reads):
@@ -173,7 +196,7 @@ def check(run, case):
     want = [mkey(framing, d, m) for m, _ in frames[cutoff:]]
     wantset = set(want)
     tail = [k for k in keys if k in wantset]
-    regs = regions(framing, g, per_read, joined)
+    regs = regions(framing, g, per_read, joined, d, case.get('warm', 0), reads[0][len(g):] if joined else None)
     for slug in regs:
         if slug == 'ascii-stray-colon':
             run.region('ascii-bad-lrc-blocks-forever')
@@ -208,6 +231,12 @@ def check(run, case):
     if 'binary-short-span-raises-every-call' in regs and 'error' in set(excs):
         run.known('binary-short-span-raises-every-call', "'{}' at the head of the buffer makes the binary framer raise struct.error on every later call", case)
         excused |= {'not-delivered-after-bound', 'backlog-unbounded'}
+    if 'rtu-split-frame' in regs and set(excs) & {'IndexError', 'KeyError', 'error'}:
+        run.known('rtu-split-frame', 'an incomplete RTU header makes isFrameReady raise and leaves a half-filled header: every later call raises KeyError and nothing is delivered', case)
+        excused |= {'not-delivered-after-bound', 'backlog-unbounded'}
+    if 'rtu-fifo-response-size-unbounded' in regs and not excs:
+        run.known('rtu-fifo-response-size-unbounded', 'a header with function code 0x18 makes the RTU client receiver wait for up to 16 MB: later frames pile up undelivered', case)
+        excused |= {'not-delivered-after-bound', 'backlog-unbounded'}
     if 'rtu-one-frame-per-call' in regs and kinds & {'not-delivered-after-bound', 'backlog-unbounded'}:
         run.known('rtu-one-frame-per-call', 'RTU framer handles one frame per receive call: with k frames per read the backlog grows without bound', case)
         excused |= {'not-delivered-after-bound', 'backlog-unbounded'}
@@ -237,12 +266,12 @@ def run(run):
                 small_len = {'rtu': 8, 'ascii': 17, 'binary': 9}[framing]
                 nfr = 24 if big else (BOUND[framing] // small_len + 30)
                 case = {'framing': framing, 'dir': d, 'garbage': g, 'class': cls, 'per_read': per_read, 'joined': bool(i % 4 == 1), 'big': big,
-                        'nframes': nfr, 'fseed': r.randrange(1 << 30)}
+                        'nframes': nfr, 'fseed': r.randrange(1 << 30), 'warm': (i // 8) % 3}
                 res = check(run, case)
                 if res is None:
                     continue
                 run.count('class:%s' % cls)
-                run.case(h64((framing, d, g, per_read, case['joined'], big)), True,
+                run.case(h64((framing, d, g, per_read, case['joined'], big, case['warm'])), True,
                          sample={k: (v.hex() if isinstance(v, bytes) else v) for k, v in case.items()} | {'verdict': 'recovers' if res else 'does not recover'},
                          sample_class=(framing, cls, res))
     # exhaustive: every single-bit flip and every truncation of one frame as the garbage
@@ -255,13 +284,36 @@ def run(run):
                 continue
             b = bytearray(good)
             b[i // 8] ^= 1 << (i % 8)
-            case = {'framing': framing, 'dir': REQ, 'garbage': bytes(b), 'class': 'flip-%d' % i, 'per_read': 1, 'joined': False, 'big': True, 'nframes': 24, 'fseed': i}
+            case = {'framing': framing, 'dir': REQ, 'garbage': bytes(b), 'class': 'flip-%d' % i, 'per_read': 1, 'joined': False, 'big': True, 'nframes': 24, 'fseed': i, 'warm': i % 2}
             res = check(run, case)
             run.case(h64((framing, 'flip', i)), True, sample=None)
         for k in range(1, len(good)):
-            case = {'framing': framing, 'dir': REQ, 'garbage': good[:k], 'class': 'trunc-%d' % k, 'per_read': 1, 'joined': False, 'big': True, 'nframes': 24, 'fseed': k}
+            for warm in (0, 1):
+                case = {'framing': framing, 'dir': REQ, 'garbage': good[:k], 'class': 'trunc-%d' % k, 'per_read': 1, 'joined': False, 'big': True, 'nframes': 24, 'fseed': k, 'warm': warm}
+                res = check(run, case)
+                run.case(h64((framing, 'trunc', k, warm)), True, sample=None)
+            continue
             res = check(run, case)
             run.case(h64((framing, 'trunc', k)), True, sample=None)
+    # exhaustive: a header announcing every possible byte count, then silence from that sender (abandoned partial frame)
+    for framing in FRAMINGS:
+        for d in (REQ, RSP):
+            for bc in range(256):
+                if not run.thorough and 8 < bc < 0xF0 and bc % 16:
+                    continue
+                if framing == 'rtu':
+                    g = bytes([UNIT, 0x10, 0, 1, 0, min(bc // 2, 123), bc]) if d == REQ else bytes([UNIT, 0x03, bc])
+                elif framing == 'ascii':
+                    g = b':' + (bytes([UNIT, 0x10, 0, 1, 0, 1, bc]) if d == REQ else bytes([UNIT, 3, bc])).hex().upper().encode()
+                else:
+                    g = b'{' + (bytes([UNIT, 0x10, 0, 1, 0, 1, bc]) if d == REQ else bytes([UNIT, 3, bc]))
+                    if any(x in (0x7B, 0x7D) for x in g[1:]):
+                        continue
+                case = {'framing': framing, 'dir': d, 'garbage': g, 'class': 'bytecount-%d' % bc, 'per_read': 1, 'joined': False, 'big': bool(bc % 2), 'nframes': 24 if bc % 2 else 110, 'fseed': bc,
+                        'warm': (bc // 2) % 2}
+                res = check(run, case)
+                if res is not None:
+                    run.case(h64((framing, d, 'bc', bc)), True, sample=None)
     run.floor('scenarios per framing (min)', min(run.counters.get('scenarios:%s' % f, 0) for f in FRAMINGS), 150 if run.shard is None else 10)
     run.floor('clean-region scenarios', run.counters.get('clean_region_cases', 0), 200 if run.shard is None else 10)
     run.floor('deliveries observed', run.counters.get('deliveries', 0), 5000 if run.shard is None else 300)
